@@ -93,6 +93,15 @@ type World struct {
 	// that time. A callee may keep such a pointer (a constructor storing its
 	// *Config); what it points to must not change after the call returned.
 	retained []retainedArg
+	// DeficientFirst: RedefineCall first calls the redefined function with
+	// one input withheld (outcome in DeficientOutcome), then with all inputs.
+	DeficientFirst   bool
+	DeficientOutcome *Outcome
+	// RepeatOnFailure: when the complete call of the redefined function ends
+	// with a body error, RedefineCall calls it once more (first outcome in
+	// FirstComplete).
+	RepeatOnFailure bool
+	FirstComplete   *Outcome
 	BodyHook func(fs *FuncSpec)   // optional: called at the start of every body (outside the lock)
 	OpTagOf  func() (gid, op int) // optional: goroutine/op attribution
 }
@@ -294,7 +303,7 @@ func (w *World) enter(fs *FuncSpec, got []reflect.Value) (outs []reflect.Value, 
 		ev.Outs = append(ev.Outs, tok)
 		outs[i] = MakeValue(l.Dyn, tok)
 	}
-	if fs.Fail {
+	if fs.Fail || (fs.FailFirst && exec == 1) {
 		err = &FailErr{Func: fs.ID, Exec: exec}
 		ev.Err = err
 		ev.ErrS = err.Error()
@@ -770,7 +779,20 @@ func (w *World) RedefineCall(target *argmapper.Func, args []argmapper.Arg) (rf *
 	}
 	w.mu.Unlock()
 	callArgs = append(callArgs, Quiet())
+	if w.DeficientFirst && len(fresh) > 0 {
+		// first call it with its first input withheld: that call lacks an
+		// argument and must fail -- and must leave no trace in the next one
+		w.DeficientOutcome = new(Outcome)
+		*w.DeficientOutcome = w.Call(rf, callArgs[1:])
+	}
 	o = w.Call(rf, callArgs)
+	if _, failed := o.Err.(*FailErr); failed && w.RepeatOnFailure {
+		// a body failed: call again with the same complete arguments (a
+		// transient failure must not be remembered by the redefined function)
+		w.FirstComplete = new(Outcome)
+		*w.FirstComplete = o
+		o = w.Call(rf, callArgs)
+	}
 	return rf, nil, "", fresh, o
 }
 
